@@ -75,9 +75,9 @@ func c01Judge(k c01Case) *vlib.Failure {
 		if pgot != (want || all) {
 			return vlib.Failf("Origins=%q, preflight with Origin %q: status %d ACAO=%q but the configuration allows it: %t", k.Patterns, k.Origin, pre.Status, pacao, want || all)
 		}
-	case "api-after-reconfigure", "api-reconfigure-in-flight":
+	case "api-after-reconfigure", "api-reconfigure-in-flight", "api-edit-in-place-and-reconfigure":
 		// the probe origin was allowed a moment ago by another configuration of the same middleware
-		got, err := c01History(k.Patterns, k.Origin, k.Via == "api-reconfigure-in-flight")
+		got, err := c01History(k.Patterns, k.Origin, slices.Index(c01HistoryVias, k.Via))
 		if err != nil {
 			return vlib.Failf("%v", err)
 		}
@@ -94,12 +94,28 @@ func c01Judge(k c01Case) *vlib.Failure {
 // c01History: NewMiddleware{Origins: [o]}; GET from o; Reconfigure to the list (sequentially, or from inside
 // ResponseWriter.Header() of that very request); GET from o again. It reports whether o is allowed at the end.
 // If o is not a valid pattern by itself (default port, https with an IP host) there is nothing to do.
-func c01History(list []string, o string, inFlight bool) (allowed bool, err error) {
-	prev, perr := cors.NewMiddleware(cors.Config{Origins: []string{o}, ExtraConfig: cors.ExtraConfig{DangerouslyTolerateSubdomainsOfPublicSuffixes: true}})
+// Mode 2: the first configuration lists o as many times as the list is long; the caller then overwrites that very
+// slice in place with the list and passes the same Config value to Reconfigure.
+var c01HistoryVias = []string{"api-after-reconfigure", "api-reconfigure-in-flight", "api-edit-in-place-and-reconfigure"}
+
+func c01History(list []string, o string, mode int) (allowed bool, err error) {
+	inFlight := mode == 1
+	first := cors.Config{Origins: []string{o}, ExtraConfig: cors.ExtraConfig{DangerouslyTolerateSubdomainsOfPublicSuffixes: true}}
+	if mode == 2 {
+		first.Origins = make([]string, len(list))
+		for i := range first.Origins {
+			first.Origins[i] = o
+		}
+	}
+	prev, perr := cors.NewMiddleware(first)
 	if perr != nil {
 		return ref.DenotedByAny(list, o) || slices.Contains(list, "*"), nil
 	}
-	cfg := cors.Config{Origins: list, ExtraConfig: cors.ExtraConfig{DangerouslyTolerateSubdomainsOfPublicSuffixes: true}}
+	cfg := cors.Config{Origins: append([]string(nil), list...), ExtraConfig: cors.ExtraConfig{DangerouslyTolerateSubdomainsOfPublicSuffixes: true}}
+	if mode == 2 {
+		copy(first.Origins, list)
+		cfg = first
+	}
 	h := prev.Wrap(noopHandler)
 	req := vlib.Req{Method: "GET", Hdr: map[string][]string{"Origin": {o}}}
 	if inFlight {
@@ -671,8 +687,8 @@ func checkC01(c *vlib.Ctx) (string, string) {
 			// the same verdicts when the probe origin was allowed a moment ago by another configuration
 			for o := range pset {
 				want := all || ref.DenotedByAny(list, o)
-				for vi, via := range []string{"api-after-reconfigure", "api-reconfigure-in-flight"} {
-					got, err := c01History(list, o, vi == 1)
+				for vi, via := range c01HistoryVias {
+					got, err := c01History(list, o, vi)
 					if err != nil || got != want {
 						k := c01Case{list, o, via}
 						if jf := vlib.Guard(func() *vlib.Failure { return c01Judge(k) }); jf != nil {
@@ -683,8 +699,8 @@ func checkC01(c *vlib.Ctx) (string, string) {
 					}
 				}
 			}
-			c.Evaluations.Add(int64(4 * len(pset)))
-			c.Transitions.Add(int64(8 * len(pset)))
+			c.Evaluations.Add(int64(5 * len(pset)))
+			c.Transitions.Add(int64(11 * len(pset)))
 		})
 		apiLists = w.Count() - 1
 		_ = apiReqs
